@@ -809,8 +809,19 @@ pub fn fwd_from_text(item: &str) -> Option<ForwardedTLV<'static>> {
     let total = frame.len();
     frame[2] = (total >> 8) as u8;
     frame[3] = total as u8;
+    thread_local! {
+        static SCRATCH_USES: std::cell::Cell<u32> = const { std::cell::Cell::new(0) };
+    }
     SCRATCH.with(|s| {
         let mut s = s.borrow_mut();
+        // a fresh scratch port every few frames: its foreign master list must never fill up (senders differ)
+        let uses = SCRATCH_USES.with(|u| {
+            u.set(u.get() + 1);
+            u.get()
+        });
+        if uses % 6 == 0 {
+            *s = None;
+        }
         if s.is_none() {
             let inst: &'static PtpInstance<RecFilter, RecMutex> = Box::leak(Box::new(PtpInstance::new(
                 InstanceConfig {
